@@ -39,8 +39,26 @@ Proof. intros ->. reflexivity. Qed.
 Lemma eqP_mod_eq a b : eqP a b -> a mod P = b mod P.
 Proof. exact (fun H => H). Qed.
 
+(* conversions between eqP and equations on residues, and decidability (eqP is opaque) *)
+Lemma eqP_of_mod a b : a mod P = b mod P -> eqP a b.
+Proof. exact (fun H => H). Qed.
+Lemma eqP_to_mod a b : eqP a b -> a mod P = b mod P.
+Proof. exact (fun H => H). Qed.
+Lemma eqP_dec a b : {eqP a b} + {~ eqP a b}.
+Proof. unfold eqP. apply Z.eq_dec. Qed.
+
 Global Opaque eqP.
 
 (* goal  x mod P = y mod P  where x, y contain nested `_ mod P`: strip the inner mods, close by ring *)
 Ltac modP_ring :=
   apply eqP_mod_eq; repeat setoid_rewrite mod_eqP; apply eqP_of_eq; ring.
+
+Global Instance pow_eqP : Proper (eqP ==> eq ==> eqP) Z.pow.
+Proof.
+  intros a b H n m <-. destruct n as [|p|p].
+  - reflexivity.
+  - induction p as [|p IH] using Pos.peano_ind.
+    + rewrite !Z.pow_1_r. exact H.
+    + rewrite Pos2Z.inj_succ, !Z.pow_succ_r by lia. apply mul_eqP; [exact H|exact IH].
+  - reflexivity.
+Qed.
